@@ -1078,8 +1078,7 @@ static int32 tls13WriteCertificate(ssl_t *ssl, sslBuf_t *out)
                 && c == ssl->chosenIdentity->cert
                 && ssl->keys
 # ifdef USE_SERVER_SIDE_SSL
-                && ssl->keys->OCSPResponseBuf
-                && ssl->keys->OCSPResponseBufLen > 0
+                && matrixCopyOCSPResponse(ssl) == PS_SUCCESS
 # endif /* USE_SERVER_SIDE_SSL */
                 )
         {
